@@ -172,6 +172,10 @@ def pmtm(x, NW=None, k=None, NFFT=None, e=None, v=None, method="adapt", show=Fal
     """
     assert method in ["adapt", "eigen", "unity"]
 
+    x = np.asarray(x)
+    if x.dtype.kind in "iub":
+        # integer samples: the data power below would wrap around in the integer type
+        x = x.astype(float)
     N = len(x)
 
     # if dpss not provided, compute them
